@@ -164,6 +164,22 @@ CHECKS = {
               'make_residue_graph; the post-repair clause (atoms of the requested block) is covered by C04, not here; '
               'parse/format round trip validated, not proved.'),
         technique='Coq proof (characterisation of matching, list reasoning for marks and reports) + in-Coq correspondence with an independent parse oracle'),
+    'C10': dict(
+        category='proof',
+        text=('Coq theorems about a model of make_bonds (residue loop with name-based bonds, fallback and final distance '
+              'passes, split into molecules along the residue graph): a distance pass adds a bond exactly for the candidate '
+              'pairs passing the test and removes nothing; the test is: not a block non-bond, not H-H, no hydrogen to '
+              'another residue, both radii known, d <= fudge*(r1+r2)/2 (exact, on squared distances); every pre-existing '
+              'bond is kept; name-based bonds are exactly the block bonds among present names; the molecule of an atom is '
+              'a function of its residue (mol_idx is part of the residue identity) and residues of one molecule are '
+              'connected (closure soundness); the VDW_RADII table regenerated from the source equals Bondi (finite '
+              'theorem). Tie: real MakeBonds.run_system on generated systems; bonds, molecules and warnings compared with '
+              'the model, and the statement evaluated with the LITERAL Bondi table on the real output in Coq.'),
+        design_ref='DESIGN.md section 5, C10',
+        note=('Trusted: Coq kernel + vm_compute; scipy KDTree distances vs exact squared distances (pairs within 1e-9 of a '
+              'threshold not generated, except exactly representable ones); completeness of the breadth-first closure is '
+              'validated, not proved; translator for VDW_RADII.'),
+        technique='Coq proof (fold invariant of the distance pass, closure soundness, finite table theorem) + table regenerated from source + in-Coq correspondence with an independent radius table'),
 }
 NOT_APPLICABLE = {}
 PENDING_REASON = 'not yet claimed: model and proofs for this property are still being built (see DESIGN.md staging); no check is registered so nothing is asserted'
